@@ -34,7 +34,7 @@ Ops == [o1 |-> [name |-> "A", eqv |-> 1, k |-> 2, x0 |-> 10],
         o2 |-> [name |-> "A", eqv |-> 2, k |-> 3, x0 |-> 20],     \* same name as o1, other equation and defaults
         o3 |-> [name |-> "B", eqv |-> 1, k |-> 5, x0 |-> 30],     \* other name, same structure as o1
         o4 |-> [name |-> "Y", eqv |-> 2, k |-> 4, x0 |-> 50]]     \* the operator of the circuit that lives in a YAML file
-Unset == 0
+Unset == -1                           \* 'no override'; 0 is a legal override value
 NtIds == {"t1", "t2", "t3", "t4", "t5"}
 NtOp  == [t1 |-> "o1", t2 |-> "o2", t3 |-> "o3", t4 |-> "o1", t5 |-> "o4"]
 NtVar0 == [t1 |-> [k |-> Unset, x0 |-> Unset], t2 |-> [k |-> Unset, x0 |-> Unset],
@@ -217,18 +217,24 @@ Compile(c, vec, clr, dec) ==
   /\ tr' = Append(tr, [a |-> "compile", c |-> c, vec |-> vec, clr |-> clr, node |-> 0, var |-> "", val |-> 0, dec |-> dec])
 
 (* get_run_func(..., node_values={'<node>/<op>/<var>': val}): the value reaches the compiled model, not the template *)
-CompileNV(c, i, var, vec) ==
-  /\ "compile_nv" \in Calls /\ Usable(c)
-  /\ CompileWith(c, vec, TRUE, [NoNv(c) EXCEPT ![i] = [NoNv(c)[i] EXCEPT ![var] = NewVals[var] + 1]], "compile")
-  /\ tr' = Append(tr, [a |-> "compile_nv", c |-> c, vec |-> vec, clr |-> TRUE, node |-> i, var |-> var, val |-> NewVals[var] + 1, dec |-> FALSE])
-
-(* update_var(node_vars={'<node | all>/<op>/<var>': val}): deep-copies the node template of every addressed node *)
 Targets(c, sel) == IF sel = 0 THEN 1..Len(cn[c]) ELSE {sel}
 UniformOp(c) == \A i, j \in 1..Len(cn[c]) : Ops[OpOf(c, i)].name = Ops[OpOf(c, j)].name   \* 'all/<op>/<var>' then addresses every node
-UpdateVar(c, sel, var, arr) ==
+OverrideVal(base, ts, i, arr, zero) ==      \* scalar: base (or 0); array: base + i per addressed node (the last one 0)
+  LET lst == CHOOSE m \in ts : \A m2 \in ts : m2 <= m IN
+  IF arr THEN (IF zero /\ i = lst THEN 0 ELSE base + i) ELSE (IF zero THEN 0 ELSE base)
+CompileNV(c, sel, var, arr, zero, vec) ==
+  /\ "compile_nv" \in Calls /\ Usable(c) /\ (sel = 0 => UniformOp(c))
+  /\ LET ts == Targets(c, sel) IN
+     CompileWith(c, vec, TRUE, [i \in 1..Len(cn[c]) |-> IF i \in ts THEN [NoNv(c)[i] EXCEPT ![var] = OverrideVal(NewVals[var] + 1, ts, i, arr, zero)]
+                                                         ELSE NoNv(c)[i]], "compile")
+  /\ tr' = Append(tr, [a |-> "compile_nv", c |-> c, vec |-> vec, clr |-> TRUE, node |-> sel, var |-> var, val |-> NewVals[var] + 1, dec |-> FALSE,
+                        arr |-> arr, zero |-> zero])
+
+(* update_var(node_vars={'<node | all>/<op>/<var>': val}): deep-copies the node template of every addressed node *)
+UpdateVar(c, sel, var, arr, zero) ==
   /\ "update_var" \in Calls /\ (sel = 0 => UniformOp(c)) /\ Usable(c)
   /\ LET ts == Targets(c, sel)
-         val(i) == IF arr THEN NewVals[var] + i ELSE NewVals[var]       \* array value: one entry per addressed node
+         val(i) == OverrideVal(NewVals[var], ts, i, arr, zero)          \* array value: one entry per addressed node
      IN IF "UpdateVarNoCopy" \in Dev
         THEN /\ tv' = [t \in NtIds |-> LET js == {j \in ts : ~cn[c][j].own /\ cn[c][j].t = t} IN
                                        IF js = {} THEN tv[t]
@@ -241,7 +247,7 @@ UpdateVar(c, sel, var, arr) ==
              /\ UNCHANGED tv
   /\ yfresh' = (IF c = "cy" THEN FALSE ELSE yfresh) /\ UNCHANGED <<yhot, yhas, hasIr>>
   /\ last' = NoObs
-  /\ tr' = Append(tr, [a |-> "update_var", c |-> c, vec |-> arr, clr |-> FALSE, node |-> sel, var |-> var, val |-> NewVals[var], dec |-> FALSE])
+  /\ tr' = Append(tr, [a |-> "update_var", c |-> c, vec |-> arr, clr |-> FALSE, node |-> sel, var |-> var, val |-> NewVals[var], dec |-> FALSE, zero |-> zero])
   /\ UNCHANGED <<od, ce, opCache, nodeCache, stash, handles, fired>>
 
 (* update_var(edge_vars=[(source, target, {'weight': w})]) *)
@@ -311,8 +317,10 @@ Next ==
   \/ \E c \in CircIds, vec \in BOOLEAN, clr \in BOOLEAN, dec \in BOOLEAN : Compile(c, vec, clr, dec)
   \/ LoadYaml
   \/ \E c \in CircIds : ClearModel(c)
-  \/ \E c \in CircIds, vec \in BOOLEAN : \E i \in 1..Len(cn[c]) : \E var \in VarNames : CompileNV(c, i, var, vec)
-  \/ \E c \in CircIds : \E sel \in 0..Len(cn[c]) : \E var \in VarNames, arr \in BOOLEAN : (arr => sel = 0) /\ UpdateVar(c, sel, var, arr)
+  \/ \E c \in CircIds, vec \in BOOLEAN : \E sel \in 0..Len(cn[c]) : \E var \in VarNames, arr \in BOOLEAN, zero \in BOOLEAN :
+         (arr => sel = 0) /\ (zero => "zero" \in Calls) /\ CompileNV(c, sel, var, arr, zero, vec)
+  \/ \E c \in CircIds : \E sel \in 0..Len(cn[c]) : \E var \in VarNames, arr \in BOOLEAN, zero \in BOOLEAN :
+         (arr => sel = 0) /\ (zero => "zero" \in Calls) /\ UpdateVar(c, sel, var, arr, zero)
   \/ \E c \in CircIds : \E q \in 1..Len(ce[c]) : UpdateEdge(c, q)
   \/ \E c \in CircIds, what \in Calls : ReadOnly(c, what)
   \/ ClearAll
@@ -339,6 +347,9 @@ Sig == [i \in 1..Len(tr) |-> <<tr[i].a, tr[i].c, tr[i].clr>>]
 ViewSig == <<View, Sig>>
 PlainCalls == \A i \in 1..Len(tr) : /\ (tr[i].a \in {"compile", "compile_nv"} => ~tr[i].vec /\ ~tr[i].dec)
                                      /\ (tr[i].a = "update_var" => tr[i].node # 0)
+(* C07 quick tier: compiles clear their caches (the clear flag is C13's subject) *)
+ClearingCompiles == /\ \A i \in 1..Len(tr) : tr[i].a = "compile" => tr[i].clr
+                    /\ Cardinality({i \in 1..Len(tr) : tr[i].a = "compile_nv"}) <= 1
 OnlyCy == \A i \in 1..Len(tr) : tr[i].c \in {"cy", "none"}
 ReadOnlyKinds == {"compile", "compile_nv", "get_nodes", "collect_edges", "to_yaml", "deepcopy", "update_template_copy",
                   "getitem", "clear_frontend_caches", "call_earlier", "clear_model"}
@@ -355,7 +366,7 @@ OnlyAddressedChange ==
         LET e == tr'[Len(tr')] IN
         \A c \in CircIds : \A i \in 1..Len(cn[c]) :
            IF c = e.c /\ (e.node = 0 \/ e.node = i)
-           THEN /\ Meaning(c)'[i][e.var] = (IF e.vec THEN e.val + i ELSE e.val)
+           THEN /\ Meaning(c)'[i][e.var] = OverrideVal(e.val, Targets(c, e.node), i, e.vec, e.zero)
                 /\ \A v \in VarNames \ {e.var} : Meaning(c)'[i][v] = Meaning(c)[i][v]
            ELSE Meaning(c)'[i] = Meaning(c)[i] ]_vars
 EdgeOverrideOnlyItsEdge ==
